@@ -51,6 +51,13 @@ CHECKS.update({
             "Trusted: TLC, pickle, the probes around open/pickle in timezone_parser (installed at run time), content-based judgement of completeness. A simulated kill raises out of write(); kernel-level partial writes are represented by the prefix enumeration. Overlapping in-place writers may leave a mixed file, which the next import repairs (documented observation, outside the stated quantifier).",
             "DESIGN.md 4 C19"),
 })
+CHECKS.update({
+    "C03": ("model_checking",
+            "TLA+ specification of the process-wide shared state (SharedState.tla: settings registry with in-place re-initialisation, DATE_ORDER save/overwrite/restore, RELATIVE_BASE written by search, class-level caches with FIFO eviction, live parser instances) model-checked with TLC over all call histories up to a bound; TLC-generated behaviours and directed histories replayed in fresh interpreters; every recorded history validated by TLC (T_C03.tla)",
+            "TLC explores every history of up to 4 (thorough 5) calls over the pool (4 settings keys with cache limits 1/2/1000, 3 locales with DMY / MDY / no own order, 2 live instances, parse / new / get / search, numeric / relative / unparsable strings) and checks HistoryFree, NoCacheKeyError, DefaultsUnaffected; the pinned design is run too and must be refuted. Behaviours generated by TLC's simulator plus directed histories are replayed, each in a fresh interpreter; each call's outcome is compared with the same call's outcome in a fresh process under several hash seeds, and TLC validates every recorded history step by step (outcome class, cache order, DATE_ORDER/RELATIVE_BASE fields) against the actions of SharedState.",
+            "Trusted: TLC, the state projection of harness/c03drv.py (reads Settings' registry and the Dictionary class caches by name). The pool is small by design (small-scope hypothesis); strings outside the three classes and settings outside the pool are covered only through the other checks.",
+            "DESIGN.md 4 C03"),
+})
 NOT_YET = {}
 
 def main():
